@@ -18,6 +18,7 @@ import (
 	"strconv"
 	"strings"
 	"sync"
+	"runtime/debug"
 	"sync/atomic"
 	"time"
 
@@ -448,6 +449,8 @@ func (e *c09Env) c09RunRound(r *rand.Rand, rd *c09Round, ctrl *DnsController) {
 		p.run(e, ctrl, rd.world)
 	}
 	rd.clients = append(rd.clients, probes...)
+
+	e.c09CacheHitStorm(r, rd, ctrl)
 
 	// ---- oracle 1: every reply carries the client's ID and question, and only
 	// answers generated for the client's (name,type).
@@ -893,4 +896,105 @@ func (e *c09Env) c09L1rRound(r *rand.Rand, seq int) {
 	m.Count("L1r_rounds", 1)
 	m.Count("L1r_forwarders_created", int64(nf))
 	m.Distinct(fmt.Sprintf("L1r|evict=%v|reset=%v|paths=%d|workers=%d|fwds=%d", evict, reset, len(paths), workers, nf/4))
+}
+
+// c09CacheHitStorm: many clients with disjoint transaction IDs hit ONE cached answer at once on
+// the transparent UDP path (the reply is the entry's pre-packed bytes with the client's ID patched
+// in). Every datagram a client receives must carry an ID that this client used, its question and
+// the marker of its (name, type).
+func (e *c09Env) c09CacheHitStorm(r *rand.Rand, rd *c09Round, ctrl *DnsController) {
+	m := e.m
+	if len(rd.qs) == 0 || len(e.replyAddrs) == 0 {
+		return
+	}
+	q := c09Q{Name: rd.qs[r.IntN(len(rd.qs))].canon(), Type: dnsmessage.TypeA, Class: dnsmessage.ClassINET}
+	dst := rd.tp.dsts[r.IntN(len(rd.tp.dsts))]
+	registered := false
+	for _, a := range e.replyAddrs { // dae sends UDP replies from the address the client had asked
+		registered = registered || a == dst
+	}
+	if !registered {
+		return
+	}
+	// make sure the answer is cached (one ordinary query first)
+	prime := &c09Client{Idx: 3000, ID: 9, Path: "probe", Q: q, dst: dst, Dst: dst.String()}
+	prime.run(e, ctrl, rd.world)
+	if len(prime.replies) == 0 || prime.replies[0] == nil || prime.replies[0].Rcode != dnsmessage.RcodeSuccess || len(prime.replies[0].Answer) == 0 {
+		m.Count("storm_skipped_answer_not_cacheable", 1)
+		return
+	}
+	want := c09Hash16(q.Name, q.Type)
+	nc, per := 8+r.IntN(9), vk.Scale(60, 400)
+	type bad struct{ what string }
+	var firstBad atomic.Pointer[bad]
+	var hits, lateOwn atomic.Int64
+	var wg sync.WaitGroup
+	for ci := 0; ci < nc; ci++ {
+		sock, err := net.ListenUDP("udp4", &net.UDPAddr{IP: net.IPv4(127, 0, 0, 1)})
+		if err != nil {
+			continue
+		}
+		wg.Add(1)
+		go func(ci int, sock *net.UDPConn) {
+			defer wg.Done()
+			defer sock.Close()
+			defer func() {
+				if rec := recover(); rec != nil {
+					firstBad.CompareAndSwap(nil, &bad{fmt.Sprintf("panic: %v\n%s", rec, debug.Stack())})
+				}
+			}()
+			src := sock.LocalAddr().(*net.UDPAddr).AddrPort()
+			buf := make([]byte, 4096)
+			for j := 0; j < per && firstBad.Load() == nil; j++ {
+				id := uint16(ci+1)<<11 | uint16(j)&0x7ff
+				msg := new(dnsmessage.Msg)
+				msg.Id = id
+				msg.RecursionDesired = true
+				msg.Question = []dnsmessage.Question{{Name: q.Name, Qtype: q.Type, Qclass: q.Class}}
+				req := &udpRequest{realSrc: src, realDst: dst, src: src, lConn: e.lConn, routingResult: &bpfRoutingResult{}}
+				if err := ctrl.Handle_(context.Background(), msg, req); err != nil {
+					continue
+				}
+			again:
+				_ = sock.SetReadDeadline(time.Now().Add(500 * time.Millisecond))
+				n, _, rerr := sock.ReadFromUDPAddrPort(buf)
+				if rerr != nil {
+					continue
+				}
+				hits.Add(1)
+				var rp dnsmessage.Msg
+				if rp.Unpack(buf[:n]) != nil {
+					firstBad.CompareAndSwap(nil, &bad{fmt.Sprintf("client %d received bytes that do not parse as a DNS message", ci)})
+					return
+				}
+				if rp.Id != id && rp.Id>>11 == id>>11 && rp.Id&0x7ff < id&0x7ff {
+					lateOwn.Add(1) // the reply to one of this client's earlier queries (it had timed out waiting): its own ID
+					goto again
+				}
+				if rp.Id != id {
+					firstBad.CompareAndSwap(nil, &bad{fmt.Sprintf("client %d asked under ID %#04x, the datagram written to it carries ID %#04x (client %d's ID space)", ci, id, rp.Id, int(rp.Id>>11)-1)})
+					return
+				}
+				if len(rp.Question) != 1 || !strings.EqualFold(rp.Question[0].Name, q.Name) || rp.Question[0].Qtype != q.Type {
+					firstBad.CompareAndSwap(nil, &bad{fmt.Sprintf("client %d: reply carries another question: %v", ci, rp.Question)})
+					return
+				}
+				for _, rr := range rp.Answer {
+					if h, _, ok := c09Marker(rr); ok && h != want {
+						firstBad.CompareAndSwap(nil, &bad{fmt.Sprintf("client %d: reply carries an answer generated for another (name,type): marker %04x, want %04x", ci, h, want)})
+						return
+					}
+				}
+			}
+		}(ci, sock)
+	}
+	wg.Wait()
+	m.Eval(int(hits.Load()))
+	m.Count("storm_rounds", 1)
+	m.Count("storm_replies_checked", hits.Load())
+	m.Count("storm_late_replies_to_own_earlier_queries", lateOwn.Load())
+	m.Distinct(fmt.Sprintf("storm|%s|%s|c%d", rd.layer, rd.tp.scheme, nc))
+	if b := firstBad.Load(); b != nil {
+		c09V(m, "reply-carries-foreign-id-or-answer/"+rd.layer+"/cache-hit-storm", b.what, map[string]any{"layer": rd.layer, "topology": rd.tp.name, "question": q.String(), "clients": nc})
+	}
 }
